@@ -23,7 +23,7 @@ ALTS = {
     "tsoffset": [3600, -3600, 99990, [3600, "option_before_tsresol"], [99990, "option_before_tsresol"]],
     "pre_idb": [["nrb"], ["isb"], ["custom"], ["custom_len1"], ["custom_len4"], ["custom_len5"], ["custom_len12"], ["unknown"],
                 ["custom_len1", "nrb"], ["spb"]],
-    "block": [[k, "every"] for k in ("nrb", "isb", "custom", "custom_nc", "unknown", "spb", "idb2")],
+    "block": [[k, "every"] for k in ("nrb", "isb", "custom", "custom_nc", "unknown", "spb", "idb2", "custom_big")],
     "options": ["shb_comment", "idb_names", "epb_flags", "all"],
 }
 
@@ -31,7 +31,7 @@ ALTS = {
 def describe(tier):
     return {
         "rule": "bases TLS 1.2, TLS 1.3, QUIC, mixed, and a capture with three snap-cut packets (application data, a QUIC datagram, the middle of a handshake flight) (captured length < original length); every container variant within 2 deviations of the default over: 5 formats, 7 "
-                "if_tsresol values, 3 if_tsoffset values, 7 kinds of unrelated block (incl. the description of a second, unused interface with another resolution) each inserted at EVERY position (one execution "
+                "if_tsresol values, 3 if_tsoffset values, 8 kinds of unrelated block (incl. a 400 kB one and the description of a second, unused interface with another resolution) each inserted at EVERY position (one execution "
                 "per position), 4 option sets. non-trivial: a variant whose output equals the base output and holds data; "
                 "distinct = distinct (base, variant, position)",
         "exhaustive": True,
